@@ -297,6 +297,99 @@ CGraph::UnorderedItems CGraph::ExpandInputs'''),
   if (taken != declared && declared != SDCompact::unknownCount) {
     return std::nullopt;
   }'''),
+ ('ccl/rslang/src/RSExpr.cpp', 'token loop as while(true) with a break at END', '''  for (auto token = lex.lex(); token != TokenID::END; token = lex.lex()) {
+    if (filter(token)) {''', '''  while (true) {
+    const auto token = lex.lex();
+    if (token == TokenID::END) {
+      break;
+    }
+    if (filter(token)) {'''),
+ ('ccl/core/src/semantic/rscore/CstList.cpp', 'CanMoveBefore with named kinds (operands kept)', '''  } else if (iWhere == begin()) {
+    return !HasPriorityOver(types(*iWhere), types(*what));
+  } else {
+    ListIterator prev = iWhere;
+    --prev;
+    return !HasPriorityOver(types(*iWhere), types(*what)) &&
+      !HasPriorityOver(types(*what), types(*prev));
+  }''', '''  }
+  const auto moved = types(*what);
+  const auto next = types(*iWhere);
+  if (iWhere == begin()) {
+    return !HasPriorityOver(next, moved);
+  } else {
+    ListIterator prev = iWhere;
+    --prev;
+    return !HasPriorityOver(next, moved) && !HasPriorityOver(moved, types(*prev));
+  }'''),
+ ('ccl/rslang/src/Typification.cpp', 'tuple text with the join idiom (brackets kept for every factor)', '''  std::string res{};
+  for (size_t i = 0U; i < size(factors); ++i) {
+    if (i != 0) {
+      res += Token::Str(TokenID::DECART);
+    }
+    if (factors.at(i).IsTuple()) {
+      res += '(';
+    }
+    res += factors.at(i).ToString();
+    if (factors.at(i).IsTuple()) {
+      res += ')';
+    }
+  }
+  return res;''', '''  const auto show = [](const Typification& factor) {
+    return factor.IsTuple() ? '(' + factor.ToString() + ')' : factor.ToString();
+  };
+  std::string res = show(factors.front());
+  for (size_t i = 1U; i < size(factors); ++i) {
+    res += Token::Str(TokenID::DECART);
+    res += show(factors.at(i));
+  }
+  return res;'''),
+ ('ccl/rslang/src/ASTInterpreter.cpp', 'projection buffer hoisted and cleared per element', '''  for (const auto& element : argument.B()) {
+    std::vector<StructuredData> components{};
+    components.reserve(size(indicies));
+    for (const auto& index : indicies) {
+      components.emplace_back(element.T().Component(index));
+    }
+    const auto tuple = Factory::Tuple(components);''', '''  std::vector<StructuredData> components{};
+  components.reserve(size(indicies));
+  for (const auto& element : argument.B()) {
+    components.clear();
+    for (const auto& index : indicies) {
+      components.emplace_back(element.T().Component(index));
+    }
+    const auto tuple = Factory::Tuple(components);'''),
+ ('ccl/core/src/ops/RSOperations.cpp', 'maximal part: test membership first through a named flag', '''      if (!selList.contains(entity) && CheckCst(entity, selList)) {
+        selList.emplace(entity);
+        changed = true;
+      }''', '''      const auto alreadyIn = selList.contains(entity);
+      if (alreadyIn) {
+        continue;
+      }
+      if (CheckCst(entity, selList)) {
+        selList.emplace(entity);
+        changed = true;
+      }'''),
+ ('ccl/core/src/semantic/schema/Schema.cpp', 'TranslateAll over a named reference', '''    storage.at(cst.uid).Translate(old2New);
+    graph.UpdateFor(cst.uid);
+  }''', '''    auto& stored = storage.at(cst.uid);
+    stored.Translate(old2New);
+    graph.UpdateFor(cst.uid);
+  }'''),
+ ('ccl/core/src/oss/ossSourceFacet.cpp', 'UpdateSync with the handle named', '''  if (auto* src = sources.at(pid).src; src != nullptr) {
+    return Environment::Sources().SaveState(*src);
+  } else {
+    return true;
+  }''', '''  const auto& handle = sources.at(pid);
+  if (handle.src == nullptr) {
+    return true;
+  }
+  return Environment::Sources().SaveState(*handle.src);'''),
+ ('ccl/core/src/semantic/rsmodel/RSModel.cpp', 'ResetDependants: skip conditions as early continues', '''    if (const auto type = core.GetRS(dependant).type;
+        dependant != target &&
+        !IsBaseSet(type)) {''', '''    const auto type = core.GetRS(dependant).type;
+    if (dependant == target) {
+      continue;
+    }
+    if (!IsBaseSet(type)) {'''),
 ]
 
 
